@@ -49,8 +49,23 @@ C02Attrs(ev) ==
       [] OTHER -> <<>>
 
 \* C03 uses the minimum the implementation REPORTS (its exactness is C05's business)
+\* a limit the implementation rejects although it is at least the EXACT minimum depth (GEGrammar!MinDepth):
+\* reported as its own clause, diagnosed by the deviation that explains the reported minimum
+ExactMin == MinDepth(G)[G.start]
+RejectSig(ev) ==
+    LET cands == {Dv \in SUBSET Deviations : MinDepthV(G, Dv)[G.start] = ev.mind}
+        w(Dv) == (IF "list-assumed-nonempty" \in Dv THEN 1 ELSE 0) + (IF "union-max" \in Dv THEN 2 ELSE 0)
+                 + (IF "bool-costs-1" \in Dv THEN 4 ELSE 0)
+    IN IF cands = {} THEN "unexplained"
+       ELSE LET k == SMin({w(Dv) : Dv \in cands}) IN
+            LET Dv == CHOOSE x \in cands : w(x) = k IN
+            (IF "list-assumed-nonempty" \in Dv THEN "list-assumed-nonempty;" ELSE "")
+            \o (IF "union-max" \in Dv THEN "union-max;" ELSE "") \o (IF "bool-costs-1" \in Dv THEN "bool-costs-1;" ELSE "")
+
 C03Clause(ev) ==
-    CASE ev.e = "decider_new" ->
+    CASE ev.e = "decider_new" /\ ~ev.ok /\ ev.d < ev.mind /\ ev.d >= ExactMin -> "C03:feasible-depth-rejected"
+      [] ev.e = "failed" /\ ev.d < ev.mind /\ ev.d >= ExactMin /\ ev.lib /\ ev.draws = 0 -> "C03:feasible-depth-rejected"
+      [] ev.e = "decider_new" ->
            IF ev.d < ev.mind THEN (IF ev.ok THEN "C03:not-rejected-upfront"
                                    ELSE IF ~ev.lib \/ ev.draws > 0 THEN "C03:rejected-midway" ELSE "ok")
            ELSE (IF ~ev.ok THEN "C03:error-at-feasible-depth" ELSE "ok")
@@ -63,7 +78,9 @@ C03Clause(ev) ==
       [] OTHER -> "ok"
 Slack(ev) == IF ev.d < ev.mind THEN "d<min" ELSE IF ev.d = ev.mind THEN "d=min" ELSE "d>min"
 C03Attrs(ev) ==
-    CASE ev.e = "decider_new" -> <<ev.decider, "decider", IF ev.exc = "" THEN "-" ELSE ev.exc, Slack(ev)>>
+    CASE ev.e \in {"decider_new", "failed"} /\ ev.d < ev.mind /\ ev.d >= ExactMin
+              /\ (IF ev.e = "decider_new" THEN ~ev.ok ELSE ev.lib /\ ev.draws = 0) -> <<RejectSig(ev)>>
+      [] ev.e = "decider_new" -> <<ev.decider, "decider", IF ev.exc = "" THEN "-" ELSE ev.exc, Slack(ev)>>
       [] ev.e = "produced" -> <<ev.decider, ev.rep, ev.op, Slack(ev)>>
       [] ev.e = "failed" -> <<ev.decider, ev.rep, ev.opc, ev.exc, Slack(ev)>>
       [] OTHER -> <<>>
